@@ -877,7 +877,9 @@ impl HistExec {
                 let locs = diag_locations(&res.diags);
                 // which project file does a location name: the one with the longest relative
                 // path that is a suffix of the location at a path-component boundary
-                let all_paths: Vec<String> = self.version.files.iter().map(|f| f.path.clone()).collect();
+                // (only the files that are input of this run: with a single file as input the
+                // tool shows the bare file name, and other project files are not part of the run)
+                let all_paths: Vec<String> = input_files(&self.version, &self.layout).iter().map(|f| f.path.clone()).collect();
                 let named = |loc: &str| -> Option<String> {
                     all_paths
                         .iter()
